@@ -346,6 +346,8 @@ def violations(T, cols, step):
     return v
 
 
+CONFORMING_AIMS = ("ok", "common_nonkey_unchecked", "one_sided_key_unchecked")
+AIM_RULE = {"join_one_sided_key": "join_common_nonkey"}
 LISTED = {"unknown_column", "change_window_column", "use_and_produce", "not_aggregating_bare", "not_aggregating_op", "too_complex",
           "join_missing_key", "join_common_nonkey", "concat_columns"}
 
@@ -715,6 +717,27 @@ class StepGen:
         elif want == "common_nonkey_unchecked":                                         # same shape, check not requested: conforming
             if len(common) >= 2:
                 st["on"] = rng.sample(common, rng.randint(1, len(common) - 1))
+        elif want in ("join_one_sided_key", "one_sided_key_unchecked"):
+            # differently named keys where a column common to both tables is a key on ONE side only: it is not equated with
+            # itself, so it is a non-key common column (violation iff the check is requested); every other common column is a proper key
+            st["check"] = want == "join_one_sided_key"
+            num = ("int", "float")
+            lonly = [c for c in self.nums if c not in bcols]
+            ronly = [d for d in bcols if bty[d] in num and d not in cols]
+            cn = [c for c in common if self.colty.get(c) in num and bty[c] in num]
+            pair = None
+            if cn and ronly and (rng.random() < 0.5 or not lonly):
+                c = rng.choice(cn)
+                pair = [c, rng.choice(ronly)]                                           # key on the left only
+            elif cn and lonly:
+                c = rng.choice(cn)
+                pair = [rng.choice(lonly), c]                                           # key on the right only
+            if pair is not None:
+                rest = [x for x in common if x != c]
+                st["on"] = rest + [pair] if rng.random() < 0.7 else [pair] + rest
+                if rng.random() < 0.25 and len(cn) >= 2:                                # crossed pairs: each name a key on both sides, never equated with itself
+                    c2 = rng.choice([x for x in cn if x != c])
+                    st["on"] = [x for x in common if x not in (c, c2)] + [[c, c2], [c2, c]]
         elif want == "join_type":
             if rng.random() < 0.5 and on:
                 st["jointype"] = "CROSS"
@@ -759,7 +782,8 @@ KINDS = {
     "rename_columns": ["ok", "ok", "ok", "unknown_column", "name_collision", "name_collision"],
     "map_columns": ["ok", "ok", "ok", "unknown_column", "name_collision", "name_collision", "empty_result"],
     "order_rows": ["ok", "ok", "unknown_column", "unknown_column", "window_spec"],
-    "natural_join": ["ok"] * 4 + ["join_missing_key"] * 3 + ["join_common_nonkey"] * 3 + ["common_nonkey_unchecked"] * 2 + ["join_type"],
+    "natural_join": ["ok"] * 4 + ["join_missing_key"] * 3 + ["join_common_nonkey"] * 3 + ["common_nonkey_unchecked"] * 2 + ["join_one_sided_key"] * 3
+                    + ["one_sided_key_unchecked"] * 2 + ["join_type"],
     "concat_rows": ["ok", "ok", "ok", "concat_columns", "concat_columns", "concat_columns", "name_collision"],
 }
 KIND_WEIGHTS = ["extend"] * 6 + ["project"] * 3 + ["select_rows"] * 2 + ["select_columns"] * 3 + ["drop_columns", "rename_columns", "map_columns", "order_rows"] + ["natural_join"] * 4 + ["concat_rows"] * 2
@@ -1191,7 +1215,7 @@ def run(chk):
         want = pr.meta.get("want")
         if want not in (None, "corpus"):
             aimed += 1
-            aimed_hit += (want in ("ok", "common_nonkey_unchecked")) == (not pr.viol) and (want in ("ok", "common_nonkey_unchecked") or want in pr.viol)
+            aimed_hit += (want in CONFORMING_AIMS) == (not pr.viol) and (want in CONFORMING_AIMS or AIM_RULE.get(want, want) in pr.viol)
         if i < 5:
             chk.sample({"prefix": pr.prefix_text, "step": {k: v for k, v in st.items() if k != "ast"}, "violated": sorted(pr.viol), "builder": pr.on_prefix[0], "columns": pr.on_prefix[1]})
         if pr.failures:
